@@ -289,6 +289,10 @@ type world struct {
 
 	known1, known2 bool
 	probeCaps      int // generator heuristic: after a refused refresh, let other peers ask for reservations
+	// generator heuristic: after a granted same-address refresh, move past the original expiry and
+	// let other peers ask from that address (see step)
+	refreshProbe  *refreshProbe
+	refreshProbeN int
 	// generator heuristic: a reservation just ended because the peer's last direct connection
 	// closed while a limited one stays; the next steps ask the relay about it (CONNECT to that
 	// peer, RESERVE by others at its address)
@@ -647,4 +651,9 @@ func (w *world) circuitViolation() string {
 		}
 	}
 	return ""
+}
+
+type refreshProbe struct {
+	ip              string
+	origExp, newExp time.Time
 }
